@@ -66,6 +66,23 @@ func synthEnv(f *AFile) *protoregistry.Files {
 		}
 	}
 	for _, path := range paths {
+		if path == descriptorPath {
+			// the options messages are the linked ones: extensions of them can be exercised on the generated Go types
+			fd, err := protoregistry.GlobalFiles.FindFileByPath(path)
+			if err != nil {
+				harnessBug("descriptor.proto is not linked: %v", err)
+			}
+			for _, imp := range byFile[path] {
+				md := fd.Messages().ByName(protoreflect.FullName(imp.Full).Name())
+				if md == nil || md.FullName() != protoreflect.FullName(imp.Full) || imp.K != "m" || !sameRanges(md, imp.XR) {
+					harnessBug("environment symbol %s does not describe descriptor.proto's", imp.Full)
+				}
+			}
+			if err := reg.RegisterFile(fd); err != nil {
+				harnessBug("cannot register %s: %v", path, err)
+			}
+			continue
+		}
 		ef := &AFile{Path: path, Syntax: "editions", Edition: 1000}
 		for i, imp := range byFile[path] {
 			k := strings.LastIndexByte(imp.Full, '.')
@@ -98,6 +115,21 @@ func synthEnv(f *AFile) *protoregistry.Files {
 		}
 	}
 	return reg
+}
+
+const descriptorPath = "google/protobuf/descriptor.proto"
+
+func sameRanges(md protoreflect.MessageDescriptor, xr [][2]int) bool {
+	rs := md.ExtensionRanges()
+	if rs.Len() != len(xr) {
+		return false
+	}
+	for i := range xr {
+		if r := rs.Get(i); int(r[0]) != xr[i][0] || int(r[1]) != xr[i][1] {
+			return false
+		}
+	}
+	return true
 }
 
 func newFile(p *descriptorpb.FileDescriptorProto, allow bool, r resolver) (fd protoreflect.FileDescriptor, err error, pan string) {
